@@ -62,6 +62,29 @@ reg('C16', 'sched', 'model_checking',
     'locks created at athlib import are replaced by baton-aware locks, Condition/Event unsupported.',
     'stateless model checking of the implementation (controlled scheduler, iterative pre-emption bounding)', 'DESIGN.md 2.3, 3/C16')
 
+reg('C04', 'rxmc', 'model_checking',
+    'The compiled patterns are turned (from their re syntax trees) into DFAs over the finite partition of all Unicode code points induced by the atoms '
+    'the patterns use; for every union in the statement the product (composite x parts) is explored completely and every reachable state must have '
+    'composite-accepting == OR(parts); for every pair of measurement kinds the product must have no jointly accepting state. This decides the property '
+    'for all strings of any length. Every automaton is bound to the real pattern by replaying access strings, one-symbol extensions (every member of '
+    'the small classes) and all strings up to length 3-4 over the class representatives through re.',
+    'Trusts re._parser as the reading of the pattern text and CPython re to implement regular semantics for these constructs (checked: only literals, '
+    'classes, branches, groups, greedy repeats, ^ and $; no flags).',
+    'symbolic product-automaton reachability (explicit-state over a finite exact quotient) + conformance replay against re', 'DESIGN.md 2.2, 3/C04')
+reg('C07', 'rxmc', 'exploration',
+    'The language of the general event-code pattern is generated from its syntax tree: all structural skeletons (every alternative, optional group and '
+    'repeat count) filled by a covering scheme (three bases, all single and pair deviations; triples, every Unicode blank and non-ASCII digits in thorough); '
+    'each code and each of its accepted case/space/suffix/trailing-zero variants is normalised and checked for validity, absence of whitespace, idempotence, '
+    'family preservation and agreement; ~9 million near-miss strings must be refused with ValueError.',
+    'Structure exhaustive; digit values and combinations of more than two (three) simultaneously varied slots are covered by scheme, not exhaustively.',
+    'bounded exhaustive enumeration of the accepted language from the regex syntax tree', 'DESIGN.md 2.2(c), 3/C07')
+reg('C10', 'rxmc', 'exploration',
+    'Same generated language as C07: every code goes through discipline_sort_key, its text form, the sorter, get_distance, get_duration_event_time, '
+    'unit_name and event_code_to_kind (totality, family rank, relay distance); the ordering clauses are evaluated on all pairs of ~3000 canonical codes; '
+    'the sorter on all lists of length <=3 over 12 disciplines including None and empty.',
+    'Structure exhaustive, fills by covering scheme (as C07); family of a code for the rank clause is decided by the patterns themselves.',
+    'bounded exhaustive enumeration of the accepted language + all pairs of a canonical subset', 'DESIGN.md 3/C10')
+
 ALL = ['C%02d' % i for i in range(1, 20)]
 PENDING_REASON = 'check not yet built in this session (planned, see DESIGN.md section 7); not claimed until it runs clean'
 
